@@ -15,7 +15,8 @@ type sorts struct {
 	structs map[string]*types.Struct
 	fields  map[string][]fieldInfo // struct sort -> fields
 	byName  map[string]types.Type  // sort name -> a Go type with that sort
-	anon    map[*types.Struct]string
+	anon    map[string]string
+	cardAx  map[string][]string
 }
 
 type fieldInfo struct {
@@ -27,7 +28,7 @@ type fieldInfo struct {
 
 func newSorts() *sorts {
 	return &sorts{done: map[string]bool{}, inprog: map[string]bool{}, structs: map[string]*types.Struct{}, fields: map[string][]fieldInfo{},
-		byName: map[string]types.Type{}, anon: map[*types.Struct]string{}}
+		byName: map[string]types.Type{}, anon: map[string]string{}}
 }
 
 var cleaner = strings.NewReplacer("/", "_", ".", "_", "*", "P", "[", "_", "]", "_", " ", "_", "{", "_", "}", "_", "(", "_", ")", "_", ",", "_", "-", "_", ":", "_", "$", "_", "<", "_", ">", "_", "#", "_", "@", "_", ";", "_", "\"", "_", "'", "_", "\t", "_", "\n", "_", "=", "_", "|", "_", "&", "_", "!", "_", "+", "_")
@@ -104,10 +105,15 @@ func (s *sorts) of(t types.Type) string {
 			s.done[name] = true
 			s.decls = append(s.decls, fmt.Sprintf("(declare-datatypes ((%s 0)) (((mk_%s (dom_%s (Array %s Bool)) (val_%s (Array %s %s)) (nil_%s Bool)))))", name, name, name, k, name, k, v, name))
 			s.decls = append(s.decls, fmt.Sprintf("(declare-fun Card_%s ((Array %s Bool)) Int)", name, k))
-			s.decls = append(s.decls, fmt.Sprintf("(assert (forall ((d (Array %s Bool))) (! (>= (Card_%s d) 0) :pattern ((Card_%s d)))))", k, name, name))
-			s.decls = append(s.decls, fmt.Sprintf("(assert (= (Card_%s ((as const (Array %s Bool)) false)) 0))", name, k))
-			s.decls = append(s.decls, fmt.Sprintf("(assert (forall ((d (Array %s Bool)) (k %s)) (! (= (Card_%s (store d k true)) (+ (Card_%s d) (ite (select d k) 0 1))) :pattern ((Card_%s (store d k true))))))", k, k, name, name, name))
-			s.decls = append(s.decls, fmt.Sprintf("(assert (forall ((d (Array %s Bool)) (k %s)) (! (=> (select d k) (> (Card_%s d) 0)) :pattern ((Card_%s d) (select d k)))))", k, k, name, name))
+			if s.cardAx == nil {
+				s.cardAx = map[string][]string{}
+			}
+			s.cardAx[name] = []string{
+				fmt.Sprintf("(assert (forall ((d (Array %s Bool))) (! (>= (Card_%s d) 0) :pattern ((Card_%s d)))))", k, name, name),
+				fmt.Sprintf("(assert (= (Card_%s ((as const (Array %s Bool)) false)) 0))", name, k),
+				fmt.Sprintf("(assert (forall ((d (Array %s Bool)) (k %s)) (! (= (Card_%s (store d k true)) (+ (Card_%s d) (ite (select d k) 0 1))) :pattern ((Card_%s (store d k true))))))", k, k, name, name, name),
+				fmt.Sprintf("(assert (forall ((d (Array %s Bool)) (k %s)) (! (=> (select d k) (> (Card_%s d) 0)) :pattern ((Card_%s d) (select d k)))))", k, k, name, name),
+			}
 		}
 		s.byName[name] = t
 		return name
@@ -117,11 +123,11 @@ func (s *sorts) of(t types.Type) string {
 		}
 		return "Int"
 	case *types.Struct:
-		if n, ok := s.anon[u]; ok {
+		if n, ok := s.anon[u.String()]; ok {
 			return n
 		}
 		name := fmt.Sprintf("S_anon%d", len(s.anon))
-		s.anon[u] = name
+		s.anon[u.String()] = name
 		s.declStruct(name, u)
 		s.byName[name] = t
 		return name
